@@ -30,6 +30,7 @@ def dispatch (line : String) : String :=
       | "hist" => handleHist rest
       | "cycles" => handleCycles args obs
       | "cnt" => handleCnt args obs
+      | "cntwin" => handleCnt args obs
       | "cnthammer" => handleHammer args obs
       | "cntshared" => handleShared args obs
       | "life" => handleLife args obs
